@@ -203,7 +203,7 @@ class Collector:
 
 
 def fmt_path(r: Run, only: Any = None) -> str:
-    items = [(a, v) for a, v in r.trace if only is None or only(a)]
+    items = [(a, v) for a, v in r.trace if a.fn not in ("loop", "call") and (only is None or only(a))]
     return ", ".join(f"{show(a)} = {v}" for a, v in items) or "no decision"
 
 
@@ -364,10 +364,12 @@ def run_r2_r3_r4(repo: Repo, res: Result, gram: dict, col: Collector) -> tuple[l
     n2 = n3 = n4 = 0
     for cls in import_classes_of(gram):
         case = Case(gram, cls)
+        before = set(col.fallbacks)
         try:
             runs = col.run(case.tree, case.X, case.S, case.F)
         except Unsupported as u:
             res.undecide("C02.R2", f"{key}::dispatch {cls}", f"the symbolic executor cannot interpret the conversion of ast.{cls}: {u.msg}", u.where() or wh)
+            n2, n3, n4 = n2 + 4, n3 + 2, n4 + 1  # attempted: the floors must not mask the reason
             continue
         L0 = App("eq", (case.L, 0))
         noneP = App("isnone", (case.P,))
@@ -459,6 +461,11 @@ def run_r2_r3_r4(repo: Repo, res: Result, gram: dict, col: Collector) -> tuple[l
                     sites.setdefault("from", rec.site)
         for u in undecided[:1]:
             res.undecide("C02.R4", f"{key}::{cls} relative anchor", u, wh)
+        new_fallbacks = sorted(x for x in col.fallbacks - before if not any(x.startswith(o + " ") for o in col.opaque))
+        if new_fallbacks and any(problems.values()):
+            # a helper could only be treated as an uninterpreted function: mismatches with the specification may be artefacts of that
+            res.undecide("C02.R3", f"{key}::{cls} conversion", f"part of the conversion cannot be interpreted: {new_fallbacks[0]}", wh)
+            continue
 
         def add(rule: str, what: str, kinds: list[str], good: str) -> None:
             bad = [p for k in kinds for p in problems[k]]
@@ -527,30 +534,30 @@ def run_r4_ancestors(repo: Repo, res: Result, fq: str | None) -> None:
         return
     samples = {"a.b.c": ["a", "a.b"], "top": [], "pkg.sub.mod.leaf": ["pkg", "pkg.sub", "pkg.sub.mod"], "x.y": ["x"], "my_pkg.sub-mod.x_1": ["my_pkg", "my_pkg.sub-mod"]}
     folded = True
+    why_not = ""
     bad: list[str] = []
     for arg, want in samples.items():
         try:
             ex = Explorer(repo, max_runs=50)
-            runs = ex.explore(lambda it, f=f, arg=arg: it.call_function(f, [arg], {}))
-            if ex.fallbacks or len(runs) != 1 or runs[0].outcome != "return":
+            runs = ex.explore(lambda it, f=f, arg=arg: it._run_function(f, [arg], {}, None))
+            if len(runs) != 1 or runs[0].outcome != "return":
                 folded = False
+                why_not = f"{len(runs)} paths / outcome {runs[0].outcome} {runs[0].raised} on {arg!r}"
                 break
             got = runs[0].value
             got = list(got) if isinstance(got, (list, tuple)) else got
             if got != want:
                 bad.append(f"{f.name}({arg!r}) folds to {show(got)} instead of {want!r}")
-        except Unsupported:
+        except Unsupported as u:
             folded = False
+            why_not = f"{u.msg} at {u.where()}"
             break
     key = f"{f.relpath}::{f.qualname}::ancestors of a dotted name"
     if folded:
         res.add("C02.R4", key, not bad, "constant folding on sample names yields exactly the proper dotted prefixes, shortest first" if not bad else bad[0] + ": relative imports resolve against the wrong package", where(f, f.node), kind="structural")
         return
-    # the body cannot be folded: weaker necessary condition on its literals
-    other = [c.value for c in ast.walk(f.node) if isinstance(c, ast.Constant) and isinstance(c.value, str) and c.value not in (".", "") and not isinstance(getattr(c, "_parent", None), ast.Expr)]
-    dots = [c for c in ast.walk(f.node) if isinstance(c, ast.Constant) and c.value == "."]
-    ok = bool(dots) and not other
-    res.add("C02.R4", key, ok, "ancestors are cut at '.' only (body not foldable, literals checked)" if ok else f"{f.name} uses separators other than '.': {other}", where(f, f.node), kind="structural")
+    # the body cannot be folded on constants: no verdict on it (never guess from its literals)
+    res.undecide("C02.R4", key, f"{f.name} cannot be constant-folded on sample names by the symbolic executor ({why_not})", where(f, f.node))
 
 
 # --------------------------------------------------------------------------- R5
@@ -598,7 +605,7 @@ def run_r5_graph(repo: Repo, res: Result) -> None:
         return it.instantiate(g, [[Sym("module", "str")], [R], Sym("level_limit", "optint")], {}, None, None)
 
     try:
-        ex = Explorer(repo, opaque={f"{TYPES_MOD}::get_parent_modules"})
+        ex = Explorer(repo, opaque={f"{TYPES_MOD}::get_parent_modules"}, split_calls=True, max_runs=6000)
         runs = ex.explore(entry)
     except Unsupported as u:
         res.undecide("C02.R5", key, f"the symbolic executor cannot interpret the graph construction: {u.msg}", u.where() or wh)
@@ -620,7 +627,7 @@ def run_r5_graph(repo: Repo, res: Result) -> None:
         return d
 
     # edges inside one module hierarchy (both ends derived from the same side of the record) carry the marker of hierarchy edges
-    hier = [attrs(e) for r in runs for e in r.effects if endpoints(e) in (("A", "A"), ("B", "B"))]
+    hier = [attrs(e) for r in runs for e in r.effects if endpoints(e) is not None and not ("A" in "".join(endpoints(e)) and "B" in "".join(endpoints(e)))]
     hier_marker = {k: v for k, v in hier[0].items() if isinstance(v, bool) and all(h.get(k) is v for h in hier)} if hier else {}
 
     def known_node(r: Run, e, t: Any) -> bool:
@@ -632,14 +639,35 @@ def run_r5_graph(repo: Repo, res: Result) -> None:
                     return True
         return False
 
+    def same_by_equalities(r: Run) -> bool:
+        """The equalities decided on the path identify a term of the importer's side with one of the importee's side (self-edge)."""
+        cls: dict[Any, Any] = {}
+
+        def find(t: Any) -> Any:
+            while cls.get(t, t) != t:
+                t = cls[t]
+            return t
+
+        for at, v in r.path.items():
+            if at.fn == "eq" and v:
+                cls[find(at.args[0])] = find(at.args[1])
+        groups: dict[Any, set[str]] = {}
+        for t in list(cls) + list(cls.values()):
+            try:
+                groups.setdefault(find(t), set()).add(about(t))
+            except TypeError:
+                continue
+        return any({"A", "B"} <= g for g in groups.values())
+
     orient_bad: list[str] = []
     known_bad: list[str] = []
     drop_bad: list[str] = []
     unknown: list[str] = []
     n_edges = 0
     edge_where = wh
+    with_edge: list[tuple[Run, int]] = []  # runs that add the import edge, and how many decisions they had taken by then
     for r in runs:
-        got = False
+        first: int | None = None
         for e in r.effects:
             ep = endpoints(e)
             if ep is None or not ("A" in ep[0] + ep[1] and "B" in ep[0] + ep[1]):
@@ -658,27 +686,48 @@ def run_r5_graph(repo: Repo, res: Result) -> None:
             if hier_marker and all(at.get(k) is v for k, v in hier_marker.items()):
                 orient_bad.append(f"the edge {show(x)} -> {show(y)} is marked like a parent-child edge ({', '.join(f'{k}={v}' for k, v in hier_marker.items())}): it does not count as an import")
                 continue
-            got = got or not e.in_loop
+            if first is None:
+                first = e.n_decisions
             for t in (x, y):
                 if not known_node(r, e, t):
                     known_bad.append(f"the edge {show(x)} -> {show(y)} is added without a check that {show(t)} is a known module: imported names that are not modules become edges / nodes")
-        if not r.main or r.outcome != "return" or got:
-            if r.main and r.outcome == "raise":
-                unknown.append(f"graph construction raises {r.raised} when {fmt_path(r)}")
+        if first is not None:
+            with_edge.append((r, first))
+        elif r.outcome == "raise":
+            unknown.append(f"graph construction raises {r.raised} when {fmt_path(r)}")
+
+    def excuse(r: Run, at: App, v: bool) -> bool:
+        if at.fn == "eq" and v and ({about(at.args[0]), about(at.args[1])} == {"A", "B"} or same_by_equalities(r)):
+            return True
+        if at.fn.startswith("hasnode@") and not v and about(at.args[1]) in ("A", "B"):
+            return True
+        if at.fn.startswith("hasedge@") and v and about(at.args[1]) == "A" and about(at.args[2]) == "B":
+            return True
+        return False
+
+    # every path that does not add the import edge: the decision at which it leaves the nearest path that does add it must be a
+    # legitimate reason (self-edge, unknown endpoint, edge already there) - or a merely structural one (separately explored loop / call)
+    edge_runs = {id(r) for r, _ in with_edge}
+    for r in runs:
+        if id(r) in edge_runs or r.outcome == "raise" or not with_edge:
             continue
-        # main path without the import edge: there must be a legitimate reason among its decisions
-        excuse = False
-        for at, v in r.path.items():
-            if at.fn == "eq" and v and {about(at.args[0]), about(at.args[1])} == {"A", "B"}:
-                excuse = True
-            elif at.fn.startswith("hasnode@") and not v and about(at.args[1]) in ("A", "B"):
-                excuse = True
-            elif at.fn.startswith("hasedge@") and v and about(at.args[1]) == "A" and about(at.args[2]) == "B":
-                excuse = True
-        if not excuse:
-            neutral = lambda at, v: (at.fn.startswith("hasnode@") and v) or (at.fn == "eq" and not v and {about(at.args[0]), about(at.args[1])} == {"A", "B"}) or (at.fn.startswith("hasedge@") and not v) or at.fn == "isnone"  # noqa: E731
-            why = [f"{show(at)} = {v}" for at, v in r.trace if not neutral(at, v)]
-            drop_bad.append(f"the import edge importer -> importee is not added although both are known, distinct modules and no such edge exists yet; it is suppressed depending on: {', '.join(why) or fmt_path(r)}")
+        best_j, best = -1, None
+        for e_run, k in with_edge:
+            j = 0
+            while j < len(r.trace) and j < len(e_run.trace) and r.trace[j] == e_run.trace[j]:
+                j += 1
+            if j > best_j:
+                best_j, best = j, (e_run, k)
+        if best_j >= len(r.trace) or best_j >= best[1]:
+            continue  # ended (or was cut off) before anything distinguishes it from a path that adds the edge
+        at, v = r.trace[best_j]
+        if at.fn in ("loop", "call") or any(excuse(r, a2, v2) for a2, v2 in r.trace[: best_j + 1]):
+            continue  # (an edge that exists already may be kept or replaced depending on its kind: everything decided after has_edge is about that)
+        drop_bad.append(f"the import edge importer -> importee is not added when {show(at)} = {v} (on a path where both are known, distinct modules and no such edge exists yet, it is added only when {show(at)} = {not v})")
+    if ex.fallbacks and (orient_bad or known_bad or drop_bad or not n_edges):
+        # a helper could only be treated as an uninterpreted function: what looks like a violation may be an artefact of that
+        res.undecide("C02.R5", key, f"part of the graph construction cannot be interpreted: {sorted(ex.fallbacks)[0]}", wh)
+        return
     for u in unknown[:1]:
         res.undecide("C02.R5", key, u, wh)
     ok = n_edges > 0
